@@ -300,8 +300,16 @@ def utf8_check(engine, ctx, b):
         if ctx.branch(int_binop("Le", b.len, Int(UTF8_LIMIT, 64))):
             n = ctx.concretize(b.len, limit=UTF8_LIMIT + 2, what="string length")
         else:
-            ctx.note("approx", what="utf8 validity of string longer than %d bytes is nondeterministic" % UTF8_LIMIT)
-            return ctx.branch(ctx.fresh_bool("utf8"))
+            # longer strings: explore one definitely-valid class (all ASCII) and one definitely-invalid
+            # class (first byte 0xFF); both are real inputs, multi-byte text beyond the limit is not explored
+            ctx.note("approx", what="strings longer than %d bytes: only all-ASCII (valid) and 0xFF-led (invalid) explored" % UTF8_LIMIT)
+            scan = getattr(engine, "max_input", 256)
+            if ctx.branch(ctx.fresh_bool("utf8")):
+                for i in range(scan):
+                    ctx.add(z3.Implies(z3.ULT(z3.BitVecVal(i, 64), b.len.z3()), z3.ULT(b.byte(i).z3(), 0x80)))
+                return True
+            ctx.add(b.byte(0).z3() == 0xFF)
+            return False
     if n > 64:
         return ctx.branch(ctx.fresh_bool("utf8"))
     bs = [b.byte(i) for i in range(n)]
@@ -1130,23 +1138,23 @@ def m_default(engine, ctx, args, callee, frame):
 
 # ------------------------------------------------------------------ uuid
 
-@model(r"^(uuid::)?Uuid::from_bytes$")
+@model(r"(^|::)(<impl )?Uuid>?::from_bytes$")
 def m_uuid_from_bytes(engine, ctx, args, callee, frame):
     return Agg("struct", "Uuid", [Cell(args[0])])
 
 
-@model(r"^(uuid::)?Uuid::as_bytes$")
+@model(r"(^|::)(<impl )?Uuid>?::as_bytes$")
 def m_uuid_as_bytes(engine, ctx, args, callee, frame):
     u = deref(args[0])
     return Ref(u.fields[0])
 
 
-@model(r"^(uuid::)?Uuid::(nil|default)$|^<(uuid::)?Uuid as Default>::default$")
+@model(r"(^|::)(<impl )?Uuid>?::(nil|default)$|^<(uuid::)?Uuid as Default>::default$")
 def m_uuid_nil(engine, ctx, args, callee, frame):
     return Agg("struct", "Uuid", [Cell(Agg("array", None, [Cell(Int(0, 8)) for _ in range(16)]))])
 
 
-@model(r"^(uuid::)?Uuid::new_v4$")
+@model(r"(^|::)(<impl )?Uuid>?::new_v4$")
 def m_uuid_new(engine, ctx, args, callee, frame):
     ctx.note("nondet", what="Uuid::new_v4", site=frame.fn.name if frame else None)
     return Agg("struct", "Uuid", [Cell(Agg("array", None, [Cell(Int(ctx.fresh_bv("uuid", 8), 8)) for _ in range(16)]))])
@@ -1216,9 +1224,10 @@ def m_dur_nanos(engine, ctx, args, callee, frame):
     return Agg("struct", "Duration", [Cell(q), Cell(int_cast(r, 32, True))])
 
 
-@model(r"^<(time::)?OffsetDateTime as (std::ops::)?Add<(time::)?Duration>>::add$")
+@model(r"^<(time::)?OffsetDateTime as (std::ops::)?Add<(time::)?Duration>>::add$|^(time::)?OffsetDateTime::checked_add$")
 def m_odt_add(engine, ctx, args, callee, frame):
     a, d = args
+    checked = callee.endswith("checked_add")
     s, ns = a.fields[0].v, a.fields[1].v
     ds, dn = d.fields[0].v, d.fields[1].v
     tn = int_binop("Add", int_cast(ns, 64, True), int_cast(dn, 64, True))    # in (-1e9, 2e9)
@@ -1231,8 +1240,11 @@ def m_odt_add(engine, ctx, args, callee, frame):
         secs = int_binop("Sub", secs, Int(1, 64, True))
     inr = b_and(int_binop("Ge", secs, Int(MIN_TS, 64, True)), int_binop("Le", secs, Int(MAX_TS, 64, True)))
     if not ctx.branch(inr):
+        if checked:
+            return none()
         raise Panic("overflow adding duration to date (time crate `Add` panics)", (frame.fn.name if frame else None,), kind="explicit")
-    return odt(secs, int_cast(tn, 32, False))
+    r = odt(secs, int_cast(tn, 32, False))
+    return some(r) if checked else r
 
 
 # ------------------------------------------------------------------ misc std
@@ -1324,3 +1336,502 @@ def m_int_bits(engine, ctx, args, callee, frame):
         return Int(a.bits - v.bit_length(), 32)
     if name == "trailing_zeros":
         return Int((v & -v).bit_length() - 1 if v else a.bits, 32)
+
+
+# ------------------------------------------------------------------ iterators
+
+class IterV:
+    """lazy iterator pipeline"""
+
+    def __init__(self, kind, **kw):
+        self.kind = kind
+        self.__dict__.update(kw)
+
+    def clone(self):
+        c = IterV(self.kind)
+        c.__dict__.update(self.__dict__)
+        if hasattr(self, "inner"):
+            c.inner = self.inner.clone() if hasattr(self.inner, "clone") else self.inner
+        return c
+
+    def __repr__(self):
+        return "Iter(%s)" % self.kind
+
+
+def seq_items(engine, ctx, v, by_ref):
+    """sequence value -> python list of cells (concretising a symbolic length)"""
+    if isinstance(v, Ref) and v.window is not None:
+        v = engine.apply_window(v)
+    v = deref(v)
+    if isinstance(v, VecV):
+        return v.items
+    if isinstance(v, Agg) and v.kind == "array":
+        return v.fields
+    if isinstance(v, Bytes):
+        n = ctx.concretize(v.len, 64, "length of iterated byte sequence")
+        return [Cell(v.byte(i)) for i in range(n)]
+    if isinstance(v, EnumV) and v.ty == "Option":
+        return list(v.fields)
+    if hasattr(v, "seq_items"):
+        return v.seq_items(engine, ctx)
+    raise Untranslatable("iterate over %s" % type(v).__name__)
+
+
+def make_seq_iter(engine, ctx, v, by_ref):
+    items = seq_items(engine, ctx, v, by_ref)
+    return IterV("seq", items=list(items), idx=0, end=len(items), by_ref=by_ref)
+
+
+def iter_next(engine, ctx, it):
+    """returns value or None (exhausted)"""
+    k = it.kind
+    if k == "seq":
+        if it.idx >= it.end:
+            return None
+        c = it.items[it.idx]
+        it.idx += 1
+        return Ref(c) if it.by_ref else c.v
+    if k == "seq_rev":
+        if it.idx >= it.end:
+            return None
+        it.end -= 1
+        c = it.items[it.end]
+        return Ref(c) if it.by_ref else c.v
+    if k == "range":
+        if ctx.branch(int_binop("Lt", it.start, it.stop)):
+            v = it.start
+            it.start = int_binop("Add", it.start, Int(1, v.bits, v.signed))
+            return v
+        return None
+    if k == "range_rev":
+        if ctx.branch(int_binop("Lt", it.start, it.stop)):
+            it.stop = int_binop("Sub", it.stop, Int(1, it.stop.bits, it.stop.signed))
+            return it.stop
+        return None
+    if k == "map":
+        x = iter_next(engine, ctx, it.inner)
+        if x is None:
+            return None
+        return engine.call_closure(it.f, [x])
+    if k == "filter_map":
+        while True:
+            x = iter_next(engine, ctx, it.inner)
+            if x is None:
+                return None
+            r = engine.call_closure(it.f, [x])
+            if r.variant == "Some":
+                return r.fields[0].v
+    if k == "filter":
+        while True:
+            x = iter_next(engine, ctx, it.inner)
+            if x is None:
+                return None
+            r = engine.call_closure(it.f, [Ref(Cell(x))])
+            if ctx.branch(r):
+                return x
+    if k == "enumerate":
+        x = iter_next(engine, ctx, it.inner)
+        if x is None:
+            return None
+        i = it.n
+        it.n += 1
+        return Agg("tuple", "tuple", [Cell(Int(i, 64)), Cell(x)])
+    if k == "rev":
+        return iter_next_back(engine, ctx, it.inner)
+    if k == "cloned":
+        x = iter_next(engine, ctx, it.inner)
+        if x is None:
+            return None
+        return deep_copy(deref(x))
+    if k == "zip":
+        a = iter_next(engine, ctx, it.a)
+        if a is None:
+            return None
+        b = iter_next(engine, ctx, it.b)
+        if b is None:
+            return None
+        return Agg("tuple", "tuple", [Cell(a), Cell(b)])
+    if k == "chain":
+        a = iter_next(engine, ctx, it.a) if it.a is not None else None
+        if a is not None:
+            return a
+        it.a = None
+        return iter_next(engine, ctx, it.b)
+    if k == "skip":
+        while it.n > 0:
+            it.n -= 1
+            if iter_next(engine, ctx, it.inner) is None:
+                return None
+        return iter_next(engine, ctx, it.inner)
+    if k == "take":
+        if it.n <= 0:
+            return None
+        it.n -= 1
+        return iter_next(engine, ctx, it.inner)
+    if k == "empty":
+        return None
+    raise Untranslatable("iterator kind %s" % k)
+
+
+def iter_next_back(engine, ctx, it):
+    k = it.kind
+    if k == "seq":
+        if it.idx >= it.end:
+            return None
+        it.end -= 1
+        c = it.items[it.end]
+        return Ref(c) if it.by_ref else c.v
+    if k == "range":
+        if ctx.branch(int_binop("Lt", it.start, it.stop)):
+            it.stop = int_binop("Sub", it.stop, Int(1, it.stop.bits, it.stop.signed))
+            return it.stop
+        return None
+    if k == "map":
+        x = iter_next_back(engine, ctx, it.inner)
+        if x is None:
+            return None
+        return engine.call_closure(it.f, [x])
+    if k == "rev":
+        return iter_next(engine, ctx, it.inner)
+    if k == "cloned":
+        x = iter_next_back(engine, ctx, it.inner)
+        return None if x is None else deep_copy(deref(x))
+    raise Untranslatable("next_back on iterator kind %s" % k)
+
+
+def as_iter(engine, ctx, v, callee=""):
+    if isinstance(v, IterV):
+        return v
+    if isinstance(v, Agg) and v.ty in ("Range", "RangeInclusive"):
+        if v.ty == "Range":
+            return IterV("range", start=v.fields[0].v, stop=v.fields[1].v, holder=v)
+    if isinstance(v, Ref) and isinstance(deref(v), IterV):
+        return deref(v)
+    if isinstance(v, Ref) and isinstance(deref(v), Agg) and deref(v).ty == "Range":
+        return as_iter(engine, ctx, deref(v))
+    if isinstance(v, Ref):
+        return make_seq_iter(engine, ctx, v, True)
+    return make_seq_iter(engine, ctx, v, False)
+
+
+@model(r"^<.* as IntoIterator>::into_iter$")
+def m_into_iter(engine, ctx, args, callee, frame):
+    v = args[0]
+    if isinstance(v, IterV):
+        return v
+    if isinstance(v, Agg) and v.ty == "Range":
+        return v
+    return as_iter(engine, ctx, v, callee)
+
+
+@model(r"^core::slice::<impl \[.*\]>::(iter|iter_mut)$|^(std::vec::)?Vec::<.*>::(iter|iter_mut)$|^(std::option::)?Option::<.*>::iter$")
+def m_slice_iter(engine, ctx, args, callee, frame):
+    return make_seq_iter(engine, ctx, args[0], True)
+
+
+@model(r"^(std::vec::)?Vec::<.*>::(drain)::<")
+def m_vec_drain(engine, ctx, args, callee, frame):
+    cell = deref_cell(args[0])
+    v = cell.v
+    rng = args[1]
+    if isinstance(v, VecV) and isinstance(rng, Agg) and rng.ty == "RangeFull":
+        items = list(v.items)
+        v.items[:] = []
+        return IterV("seq", items=items, idx=0, end=len(items), by_ref=False)
+    raise Untranslatable("Vec::drain with %r" % (rng,))
+
+
+def range_writeback(it):
+    h = getattr(it, "holder", None)
+    if h is not None:
+        h.fields[0].v = it.start
+        h.fields[1].v = it.stop
+
+
+@model(r"^<.* as (std::iter::)?(Iterator|DoubleEndedIterator)>::(next|next_back)$")
+def m_iter_next(engine, ctx, args, callee, frame):
+    target = deref(args[0])
+    it = as_iter(engine, ctx, target)
+    if callee.endswith("next_back"):
+        x = iter_next_back(engine, ctx, it)
+    else:
+        x = iter_next(engine, ctx, it)
+    if it.kind == "range":
+        range_writeback(it)
+    return none() if x is None else some(x)
+
+
+def adaptor(kind):
+    def f(engine, ctx, args, callee, frame):
+        inner = as_iter(engine, ctx, args[0])
+        if kind in ("map", "filter_map", "filter"):
+            return IterV(kind, inner=inner, f=args[1])
+        if kind == "enumerate":
+            return IterV(kind, inner=inner, n=0)
+        if kind in ("rev", "cloned", "copied"):
+            return IterV("cloned" if kind == "copied" else kind, inner=inner)
+        if kind == "zip":
+            return IterV(kind, a=inner, b=as_iter(engine, ctx, args[1]))
+        if kind == "chain":
+            return IterV(kind, a=inner, b=as_iter(engine, ctx, args[1]))
+        if kind in ("skip", "take"):
+            return IterV(kind, inner=inner, n=ctx.concretize(args[1], 64, kind))
+        raise Untranslatable("adaptor " + kind)
+    return f
+
+
+for _k in ("map", "filter_map", "filter", "enumerate", "rev", "cloned", "copied", "zip", "chain", "skip", "take"):
+    MODELS.append((re.compile(r"^<.* as (std::iter::)?Iterator>::%s(::<.*>)?$|^(std::iter::)?Iterator::%s(::<.*>)?$" % (_k, _k)), adaptor(_k)))
+
+
+def drain(engine, ctx, it, limit=None):
+    out = []
+    n = 0
+    while True:
+        x = iter_next(engine, ctx, it)
+        if x is None:
+            return out
+        out.append(x)
+        n += 1
+        if n > (limit or engine.loop_bound * 4):
+            raise BoundHit("iterator longer than bound")
+
+
+@model(r"^<.* as (std::iter::)?Iterator>::collect::<(.*)>$|^(std::iter::)?Iterator::collect::<")
+def m_collect(engine, ctx, args, callee, frame):
+    target = re.search(r"collect::<(.*)>$", callee).group(1)
+    it = as_iter(engine, ctx, args[0])
+    items = drain(engine, ctx, it)
+    tl = last_ident(target)
+    if tl == "Vec":
+        m = re.match(r"^(?:std::vec::)?Vec<(.*)>$", target)
+        ety = m.group(1) if m else "_"
+        if ety == "u8":
+            return bytes_from_ints(items)
+        return VecV(ety, [Cell(x) for x in items])
+    if tl == "Result":
+        # Result<Vec<T>, E>: stop at first Err
+        out = []
+        for x in items:
+            if x.variant == "Err":
+                return x
+            out.append(Cell(x.fields[0].v))
+        return ok(VecV("_", out))
+    if tl in ("HashSet", "BTreeSet", "IndexSet"):
+        s = SetV(tl)
+        for x in items:
+            s.insert(engine, ctx, x)
+        return s
+    if tl in ("HashMap", "BTreeMap", "IndexMap"):
+        mp = MapV(tl)
+        for x in items:
+            mp.insert(engine, ctx, x.fields[0].v, x.fields[1].v)
+        return mp
+    raise Untranslatable("collect into %s" % target)
+
+
+@model(r"^<.* as (std::iter::)?Iterator>::(count|last|for_each|any|all|find|position|fold|sum|max|min)(::<.*>)?$")
+def m_iter_consumers(engine, ctx, args, callee, frame):
+    name = re.search(r"Iterator>::(\w+)", callee).group(1)
+    it = as_iter(engine, ctx, args[0] if not isinstance(args[0], Ref) else deref(args[0]))
+    if name == "count":
+        return Int(len(drain(engine, ctx, it)), 64)
+    if name == "last":
+        items = drain(engine, ctx, it)
+        return some(items[-1]) if items else none()
+    if name == "for_each":
+        for x in drain(engine, ctx, it):
+            engine.call_closure(args[1], [x])
+        return unit()
+    if name in ("any", "all"):
+        while True:
+            x = iter_next(engine, ctx, it)
+            if x is None:
+                return name == "all"
+            r = engine.call_closure(args[1], [x])
+            if ctx.branch(r):
+                if name == "any":
+                    return True
+            else:
+                if name == "all":
+                    return False
+    if name == "find":
+        while True:
+            x = iter_next(engine, ctx, it)
+            if x is None:
+                return none()
+            r = engine.call_closure(args[1], [Ref(Cell(x))])
+            if ctx.branch(r):
+                return some(x)
+    if name == "position":
+        i = 0
+        while True:
+            x = iter_next(engine, ctx, it)
+            if x is None:
+                return none()
+            r = engine.call_closure(args[1], [x])
+            if ctx.branch(r):
+                return some(Int(i, 64))
+            i += 1
+    if name == "fold":
+        acc = args[1]
+        for x in drain(engine, ctx, it):
+            acc = engine.call_closure(args[2], [acc, x])
+        return acc
+    raise Untranslatable("iterator consumer %s" % name)
+
+
+# ------------------------------------------------------------------ maps and sets (association lists)
+
+def key_eq(engine, ctx, a, b):
+    """structural equality of two key values -> bool (forks on symbolic comparisons)"""
+    c = value_eq_cond(engine, ctx, a, b)
+    return ctx.branch(c)
+
+
+def value_eq_cond(engine, ctx, a, b):
+    """z3/py condition that two values are structurally equal (no forking for ints/arrays)"""
+    a, b = deref(a), deref(b)
+    if isinstance(a, Int) and isinstance(b, Int):
+        return int_binop("Eq", a, b)
+    if isinstance(a, bool) or isinstance(b, bool) or (z3.is_expr(a) and z3.is_bool(a)):
+        return to_bool(bz3(a) == bz3(b))
+    if isinstance(a, Bytes) or isinstance(b, Bytes):
+        return seq_eq(engine, ctx, a, b)
+    if isinstance(a, Agg) and isinstance(b, Agg):
+        if len(a.fields) != len(b.fields):
+            return False
+        c = True
+        for x, y in zip(a.fields, b.fields):
+            c = b_and(c, value_eq_cond(engine, ctx, x.v, y.v))
+            if c is False:
+                return False
+        return c
+    if isinstance(a, EnumV) and isinstance(b, EnumV):
+        if a.variant != b.variant:
+            return False
+        c = True
+        for x, y in zip(a.fields, b.fields):
+            c = b_and(c, value_eq_cond(engine, ctx, x.v, y.v))
+        return c
+    if isinstance(a, VecV) and isinstance(b, VecV):
+        if len(a.items) != len(b.items):
+            return False
+        c = True
+        for x, y in zip(a.items, b.items):
+            c = b_and(c, value_eq_cond(engine, ctx, x.v, y.v))
+        return c
+    if a is None and b is None:
+        return True
+    raise Untranslatable("equality of %s and %s" % (type(a).__name__, type(b).__name__))
+
+
+class MapV:
+    def __init__(self, kind):
+        self.kind = kind
+        self.entries = []     # list of (key value, Cell)
+
+    def clone(self):
+        m = MapV(self.kind)
+        m.entries = [(deep_copy(k), Cell(deep_copy(c.v))) for k, c in self.entries]
+        return m
+
+    def find(self, engine, ctx, key):
+        for i, (k, c) in enumerate(self.entries):
+            if key_eq(engine, ctx, k, key):
+                return i
+        return None
+
+    def insert(self, engine, ctx, key, val):
+        i = self.find(engine, ctx, key)
+        if i is not None:
+            old = self.entries[i][1].v
+            self.entries[i][1].v = val
+            return some(old)
+        self.entries.append((key, Cell(val)))
+        return none()
+
+    def seq_len(self):
+        return Int(len(self.entries), 64)
+
+    def __repr__(self):
+        return "%s%r" % (self.kind, [(k, c.v) for k, c in self.entries])
+
+
+class SetV:
+    def __init__(self, kind):
+        self.kind = kind
+        self.items = []
+
+    def clone(self):
+        s = SetV(self.kind)
+        s.items = [deep_copy(x) for x in self.items]
+        return s
+
+    def contains(self, engine, ctx, key):
+        for k in self.items:
+            if key_eq(engine, ctx, k, key):
+                return True
+        return False
+
+    def insert(self, engine, ctx, key):
+        if self.contains(engine, ctx, key):
+            return False
+        self.items.append(key)
+        return True
+
+    def seq_len(self):
+        return Int(len(self.items), 64)
+
+    def seq_items(self, engine, ctx):
+        return [Cell(x) for x in self.items]
+
+    def __repr__(self):
+        return "%s%r" % (self.kind, self.items)
+
+
+# ------------------------------------------------------------------ bitflags! generated types
+
+def bitflags_all(engine, frame):
+    """union of the flag constants declared by the bitflags! type of the crate that owns `frame`'s function.
+    The constants are read from the MIR (`const <impl ..>::NAME: T = from_bits_retain(const N)`)."""
+    crate = frame.fn.crate if frame is not None else None
+    cache = engine.__dict__.setdefault("_bitflags_all", {})
+    if crate in cache:
+        return cache[crate]
+    by_type = {}
+    for (cr, key), fn in engine.program.fns.items():
+        if cr != crate or fn.kind != "const" or not fn.blocks:
+            continue
+        if "bitflags-" not in fn.name:
+            continue
+        b0 = fn.blocks.get(0)
+        if b0 is None or b0.term is None or b0.term.kind != "call":
+            continue
+        if not b0.term.callee.endswith("from_bits_retain"):
+            continue
+        m = re.fullmatch(r"(\d+)_u(\d+)", b0.term.args[0].const or "")
+        if not m:
+            raise Untranslatable("bitflags constant %s is not a literal" % fn.name)
+        by_type.setdefault(fn.ret_type, []).append((fn.name.split("::")[-1], int(m.group(1)), int(m.group(2))))
+    if len(by_type) != 1:
+        raise Untranslatable("bitflags: %d flag types in crate %s" % (len(by_type), crate))
+    (ty, flags), = by_type.items()
+    allbits = 0
+    for _, v, bits in flags:
+        allbits |= v
+    cache[crate] = (ty, allbits, flags[0][2])
+    return cache[crate]
+
+
+@model(r"(^|::)InternalBitFlags::from_bits_truncate$")
+def m_bitflags_truncate(engine, ctx, args, callee, frame):
+    ty, allbits, bits = bitflags_all(engine, frame)
+    v = int_binop("BitAnd", args[0], Int(allbits, bits))
+    return Agg("struct", "InternalBitFlags", [Cell(v)])
+
+
+@model(r"(^|::)InternalBitFlags::all$")
+def m_bitflags_all(engine, ctx, args, callee, frame):
+    ty, allbits, bits = bitflags_all(engine, frame)
+    return Agg("struct", "InternalBitFlags", [Cell(Int(allbits, bits))])
